@@ -9,7 +9,7 @@ git -C /repo worktree add -q --detach "$WT" HEAD || exit 2
 if ! git -C "$WT" apply "$PATCH"; then echo "PATCH-DOES-NOT-APPLY"; git -C /repo worktree remove --force "$WT"; exit 3; fi
 OUT=$(mktemp -d /tmp/seedeval-out.XXXXXX)
 cp /verif/known_findings.json /verif/baseline_funcs.txt "$OUT/"
-if [ -n "$ALL" ]; then IDS=$(seq -f 'C%02g' 1 20); else IDS=$ID; fi
+if [ -n "$ALL" ]; then IDS=${IDS:-$(seq -f "C%02g" 1 20)}; else IDS=$ID; fi
 for P in $IDS; do
   /verif/bin/ipcheck -property $P -root "$WT" -verif "$OUT" > "$OUT/$P.log" 2>&1
   rc=$?
